@@ -102,6 +102,8 @@ def features_of(lay):
                     fs.add("amp-trailing-blanks")
                 if g["k"] == "amp" and g["n"] < 5:
                     fs.add("amp-next-in-col1-5")
+                if g["k"] == "amp" and g.get("cs"):
+                    fs.add("amp-then-comments")
             if inp["pre"]:
                 fs.add("c-before-input")
             if inp["lead"]:
@@ -234,6 +236,19 @@ def shrink_layout(prob, lay, still_fails, budget=80):
                     if attempt(cand):
                         lay = cand
             for g in range(len(lay["blocks"][b][j]["gaps"])):
+                if lay["blocks"][b][j]["gaps"][g].get("cs") and lay["blocks"][b][j]["gaps"][g]["k"] == "amp":
+                    cand = copy.deepcopy(lay)
+                    cand["blocks"][b][j]["gaps"][g]["cs"] = []
+                    if attempt(cand):
+                        lay = cand
+                    else:
+                        for keep in ([{"ind": 0, "text": "a comment"}], lay["blocks"][b][j]["gaps"][g]["cs"][:1], lay["blocks"][b][j]["gaps"][g]["cs"][1:]):
+                            if keep and keep != lay["blocks"][b][j]["gaps"][g]["cs"]:
+                                cand = copy.deepcopy(lay)
+                                cand["blocks"][b][j]["gaps"][g]["cs"] = keep
+                                if attempt(cand):
+                                    lay = cand
+                                    break
                 if lay["blocks"][b][j]["gaps"][g] != {"k": "blanks", "n": 0}:
                     cand = copy.deepcopy(lay)
                     cand["blocks"][b][j]["gaps"][g] = {"k": "blanks", "n": 0}
@@ -273,6 +288,32 @@ def exhaustive_layouts():
                     blocks = copy.deepcopy(base)
                     blocks[b][j]["gaps"] = [{"k": "blanks", "n": 0}] * g + [gap]
                     yield {"style": {"eq": 0, "glue": 0.0, "case": 0}, "feats": [], "phys": {"final_blank": True}, "blocks": blocks, "limit": 128, "seed": 0}
+
+
+AMP_COMMENTS = [
+    [],
+    [{"ind": 0, "text": "a comment"}],
+    [{"ind": 4, "text": ""}, {"ind": 0, "text": "ends with &"}],
+    [{"ind": 2, "text": "1 0 -1 $ x"}, {"ind": 0, "text": "c"}, {"ind": 1, "text": "read file=nothing.i"}],
+]
+
+
+def exhaustive_amp_layouts():
+    """the product the per-gap choices must compose to: at EVERY gap of every fixed input (two of each block):
+    '&' (0 or 2 trailing blanks) + line break + 0, 1, 2 or 3 C comment lines + a continuation indented by 0..8 blanks"""
+    base = [[], [], []]
+    for b, ws in FIXED:
+        base[b].append(plain_input({"words": ws}))
+    for b in range(3):
+        for j, inp in enumerate(base[b]):
+            for g in range(len(inp["words"]) - 1):
+                for ci, cs in enumerate(AMP_COMMENTS):
+                    for n in range(9):
+                        if n < 5 and inp["words"][g + 1].startswith("#"):
+                            continue  # a line must not begin with '#' in columns 1-5 (vertical format)
+                        blocks = copy.deepcopy(base)
+                        blocks[b][j]["gaps"] = [{"k": "blanks", "n": 0}] * g + [{"k": "amp", "pre": n % 2, "t": 2 * (ci % 2), "cs": cs, "n": n}]
+                        yield {"style": {"eq": 0, "glue": 0.0, "case": 0}, "feats": [], "phys": {"final_blank": True}, "blocks": blocks, "limit": 128, "seed": 0}
 
 
 FIXED_PROB = {"title": "fixed problem of the exhaustive layout sub-space", "message": None}
@@ -392,7 +433,7 @@ def run(chk):
     chk.rule = (
         f"a case is one logical problem (typed AST: 2-7 cells with unions/parentheses/complements, 2-7 surfaces of 21 types, materials, "
         f"transforms, mode, per-cell data in either block, data cards) rendered in {k} layouts drawn from the features of DESIGN 5.3 "
-        "(1-12 blanks, tabs, 5-blank continuation, '&' continuation with trailing blanks, '$' comments, C comment lines at any position, "
+        "(1-12 blanks, tabs, 5-blank continuation, '&' continuation with trailing blanks followed by 0-3 C comment lines and a continuation indented by 0-8 blanks, '$' comments, C comment lines at any position, "
         "'=' / ' = ' / blank, letter case, 0-4 leading blanks, LF/CRLF, message block, final blank line, trailing blanks, blank lines "
         "holding blanks), plus the canonical layout. Non-trivial: the layout uses at least one non-default feature."
     )
@@ -431,6 +472,8 @@ def run(chk):
             jobs.append((i, prob, gen_file_layout(rng, prob, limit)))
     nrandom = len(jobs)
     exh = list(exhaustive_layouts())
+    exh_amp = list(exhaustive_amp_layouts())
+    exh += exh_amp
     fixed_idx = nprob
     base = copy.deepcopy(exh[0])
     for blk in base["blocks"]:
@@ -439,7 +482,8 @@ def run(chk):
     jobs.append((fixed_idx, FIXED_PROB, base))
     for lay in exh:
         jobs.append((fixed_idx, FIXED_PROB, lay))
-    chk.units["U-reader"] = {"corpus": ncorpus, "problems": nprob, "layouts_per_problem": k + 1, "exhaustive_single_feature_layouts": len(exh)}
+    chk.units["U-reader"] = {"corpus": ncorpus, "problems": nprob, "layouts_per_problem": k + 1, "exhaustive_single_feature_layouts": len(exh) - len(exh_amp),
+                             "exhaustive_amp_x_comments_x_indent_layouts": len(exh_amp)}
     chk.exhaustive = False
 
     obs = pmap(observe_layout, [(p, l) for _, p, l in jobs], workers=WORKERS, chunksize=4)
